@@ -71,6 +71,90 @@ def cmd_parse(sim, vp, cmd, res):
             "lines.linewidth", "legend.loc", "font.family", "text.usetex",
             "pgf.texsystem")}
         res["rc"]["backend"] = mpl.get_backend()
+    if cmd.get("fingerprint"):
+        # everything run() may import later is imported now, i.e. after the
+        # override; modules the entry point imported earlier stay as they are
+        for name in FP_MODULES:
+            importlib.import_module(name)
+        res["fingerprint"] = module_fingerprint()
+
+
+FP_MODULES = ("evo.core.units", "evo.core.transformations",
+              "evo.core.lie_algebra", "evo.core.geometry", "evo.core.filters",
+              "evo.core.trajectory", "evo.core.result", "evo.core.sync",
+              "evo.core.metrics", "evo.tools.user", "evo.tools.log",
+              "evo.tools.tf_id", "evo.tools.file_interface",
+              "evo.tools.pandas_bridge", "evo.common_ape_rpe", "evo.main_ape",
+              "evo.main_rpe", "evo.main_traj", "evo.main_res")
+
+
+def _fp_simple(v, depth=0):
+    """repr of plain data, None for anything else"""
+    import enum
+    if v is None or isinstance(v, (bool, int, float, str, bytes)):
+        return repr(v)
+    if isinstance(v, enum.Enum):
+        return f"{type(v).__name__}.{v.name}={v.value!r}"
+    if depth < 2 and type(v) in (tuple, list):
+        parts = [_fp_simple(x, depth + 1) for x in v]
+        if all(x is not None for x in parts):
+            return type(v).__name__ + "(" + ", ".join(parts) + ")"
+    if depth < 2 and type(v) is dict:
+        parts = [(_fp_simple(k, depth + 1), _fp_simple(x, depth + 1))
+                 for k, x in v.items()]
+        if all(a is not None and b is not None for a, b in parts):
+            return "{" + ", ".join(f"{a}: {b}" for a, b in sorted(parts)) + "}"
+    return None
+
+
+def _fp_defaults(f):
+    out = []
+    for d in (f.__defaults__ or ()):
+        r = _fp_simple(d)
+        out.append(r if r is not None else f"<{type(d).__name__}>")
+    for k, d in sorted((f.__kwdefaults__ or {}).items()):
+        r = _fp_simple(d)
+        out.append(f"{k}=" + (r if r is not None else f"<{type(d).__name__}>"))
+    return "(" + ", ".join(out) + ")"
+
+
+def module_fingerprint():
+    """what the loaded evo modules of this process froze when they were
+    imported: argument defaults of every function / method and the plain-data
+    globals and class attributes (the settings modules themselves excluded)"""
+    import types
+    out = {}
+    for mname in sorted(sys.modules):
+        if not mname.startswith("evo.") or mname.startswith(
+                "evo.tools.settings"):
+            continue
+        mod = sys.modules[mname]
+        if mod is None:
+            continue
+        for k, v in sorted(vars(mod).items()):
+            if k.startswith("__"):
+                continue
+            if isinstance(v, types.FunctionType):
+                if v.__module__ == mname:
+                    out[f"{mname}.{k}()"] = _fp_defaults(v)
+            elif isinstance(v, type):
+                if v.__module__ != mname:
+                    continue
+                for a, f in sorted(vars(v).items()):
+                    if a.startswith("__") and a != "__init__":
+                        continue
+                    f = getattr(f, "__func__", f)
+                    if isinstance(f, types.FunctionType):
+                        out[f"{mname}.{k}.{a}()"] = _fp_defaults(f)
+                    else:
+                        r = _fp_simple(f)
+                        if r is not None:
+                            out[f"{mname}.{k}.{a}"] = r
+            else:
+                r = _fp_simple(v)
+                if r is not None:
+                    out[f"{mname}.{k}"] = r
+    return out
 
 
 def cmd_lock(sim, vp, cmd, res):
@@ -476,7 +560,7 @@ class C18(Check):
         "generate_multi_value", "generate_overwrite_prompt",
         "run_c_overrode_cli", "run_c_overrode_settings", "lock_refused",
         "run_c_plot_import_checked", "run_c_table_writer_checked",
-        "run_c_table_setting_overridden",
+        "run_c_table_setting_overridden", "run_c_fingerprint_with_override",
     )
 
     def setup_worker(self):
@@ -645,7 +729,8 @@ class C18(Check):
                 cli, _ = alpha.gen_argv(rng, 4, exclude=[
                     d for d in cdests if d not in overlap])
                 ops.append({"op": "run_c", "app": app, "sub": sub,
-                            "positional": pos, "argv": cli, "config": path})
+                            "positional": pos, "argv": cli, "config": path,
+                            "fingerprint": rng.random() < 0.5})
             else:
                 k1, k2 = rng.sample(keys, 2)
                 g1 = sg.gen_group(rng, k1, dflt[k1])
@@ -1077,6 +1162,9 @@ class C18(Check):
         cmds = [
             {"cmd": "parse", "app": op["app"], "import_plot": import_plot,
              "entry_order": True, "table_probe": table_probe,
+             "fingerprint": bool(op.get("fingerprint")) and (
+                 model.settings is not None
+                 and model.version == model.cur_version),
              "argv": pos + list(op["argv"]) + ["-c", op["config"]]},
             {"cmd": "parse", "app": op["app"], "argv": pos + list(op["argv"])},
             {"cmd": "start"},
@@ -1165,6 +1253,10 @@ class C18(Check):
                         in_config=key in cfg)
                 if key in cfg and not same(cfg[key], ms[key]):
                     sim.probe("run_c_table_setting_overridden")
+        v = self._fingerprint_check(sim, model, op, pos, cfg, st, ms,
+                                    import_plot, results[0])
+        if v:
+            return v
         # the next process sees the durable values again
         st2 = results[2]["settings"]
         for k, val in ms.items():
@@ -1172,6 +1264,44 @@ class C18(Check):
                 return self._fail("run_c", "override-persisted", key=k,
                                   expected=val, actual=st2.get(k))
         return self._compare_disk(sim, model, "run_c", [])
+
+    def _fingerprint_check(self, sim, model, op, pos, cfg, st, ms,
+                           import_plot, first):
+        """'overrides matching package settings for that run': the run must
+        be indistinguishable from one in which the overridden values are the
+        stored ones.  Differential oracle over what the loaded evo modules
+        froze at import time (argument defaults, plain globals)."""
+        fp_a = first.get("fingerprint")
+        if fp_a is None:
+            return None
+        orig = sim.fs.read_bytes(SETTINGS_PATH)
+        if orig is None:
+            return None
+        stored = {k: v for k, v in st.items() if k != "__locked__"}
+        sim.fs.write_bytes(SETTINGS_PATH, sg.dumps(stored).encode())
+        try:
+            results = self._run(sim, [
+                {"cmd": "parse", "app": op["app"], "import_plot": import_plot,
+                 "entry_order": True, "fingerprint": True,
+                 "argv": pos + list(op["argv"])}])
+        finally:
+            sim.fs.write_bytes(SETTINGS_PATH, orig)
+        v = self._check_process("run_c", results)
+        if v:
+            return v
+        fp_b = results[0].get("fingerprint") or {}
+        sim.probe("run_c_fingerprint_compared")
+        overridden = sorted(k for k in cfg if k in ms and not same(cfg[k],
+                                                                   ms[k]))
+        if overridden:
+            sim.probe("run_c_fingerprint_with_override")
+        for k in sorted(set(fp_a) | set(fp_b)):
+            if fp_a.get(k) != fp_b.get(k):
+                return self._fail(
+                    "run_c", "import-time-setting-not-overridden", item=k,
+                    with_override=fp_a.get(k), when_stored=fp_b.get(k),
+                    app=op["app"], overridden_by_config=overridden)
+        return None
 
     def _op_lock(self, sim, model, op, res):
         cmd = dict(op, cmd="lock")
